@@ -154,8 +154,21 @@ def h_norm(c, n):
         d = o[0] - p[0]
         ok.append(sx.Or(d == 0, d == 360, d == -360, d == 720, d == -720))
     c.prove(sx.And(*ok), "longitudes-change-by-multiples-of-360-only")
-    span = [sx.And(a[0] - b[0] <= 360, b[0] - a[0] <= 360) for a in out for b in out]
-    c.prove(sx.And(*span), "all-longitudes-within-180-of-one-centre")
+    # documented rule: the ring is normalised about the centroid's longitude wrapped into [-180, 180)
+    # (the first point's longitude when the centroid is within 0.01 degrees of a pole)
+    clon = c.inputs["center_lon#1"][0]
+    clat = c.inputs["center_lat#1"][0]
+    clon, clat = sf.SymReal(clon), sf.SymReal(clat)
+    near_pole = sx.Or(clat > 89.99, clat < -89.99)
+    ok2 = []
+    for o in out:
+        for centre, cond in ((clon, sx.Not(near_pole)), (pts[0][0], near_pole)):
+            # wrapped centre w: w == centre (mod 360), -180 <= w < 180
+            wk = [centre + 360 * k for k in (-1, 0, 1, 2)]
+            inwin = [sx.And(w >= -180, w < 180) for w in wk]
+            within = sx.Or(*[sx.And(iw, o[0] - w <= 180, w - o[0] <= 180) for iw, w in zip(inwin, wk)])
+            ok2.append(sx.Implies(cond, within))
+    c.prove(sx.And(*ok2), "every-longitude-within-180-of-the-wrapped-centre", info={"candidate": True})
 
 
 def h_world(c):
@@ -185,6 +198,26 @@ def jobs(tier, seed):
 
 def replay(cx):
     p, inp = cx["params"], cx["inputs"]
+    if cx["func"] == "h_norm":
+        script = """
+import sys, a5
+def bad(sig):
+    print("REPRODUCED " + sig); sys.exit(1)
+from a5.core.coordinate_transforms import normalize_longitudes
+# the property's own observable on every cell of resolutions 0..4: no 180-degree jump, span < 180 (cells touching a pole exempt)
+for r in range(0, 5):
+    for cid in a5.cell_to_children(0, r):
+        for seg in (1, 3):
+            ring = a5.cell_to_boundary(cid, {"segments": seg, "closed_ring": False})
+            lats = [la for lo, la in ring]; lons = [lo for lo, la in ring]
+            if max(lats) > 84 or min(lats) < -84: continue
+            if max(lons) - min(lons) >= 180: bad("boundary-ring-spans-180-degrees:r=%d" % r)
+            if any(abs(lons[i] - lons[i - 1]) >= 180 for i in range(len(lons))): bad("boundary-ring-180-degree-jump:r=%d" % r)
+            arg = list(ring); out = normalize_longitudes(arg)
+            if arg != ring or len(out) != len(ring) or any(o[1] != p[1] for o, p in zip(out, ring)): bad("normalize_longitudes-contract:r=%d" % r)
+print("ok")
+"""
+        return {"script": script, "description": "longitude normalisation of boundary rings", "candidate": True}
     if cx["func"] != "h_ring":
         return {"script": "import a5,sys\nif a5.cell_to_boundary(0) != []: print('REPRODUCED world-cell-boundary'); sys.exit(1)\nprint('ok')",
                 "description": "world"}
